@@ -37,18 +37,31 @@ unthrottled sink shows -/
 theorem segmentation_and_backpressure_independent (ver : Ver) (method : Bytes) (quotas : List Nat)
     (segs : List Bytes) :
     (runSink ver method quotas segs).clientView = (runSink ver method [] [segs.flatten]).clientView := by
-  sorry
+  have h1 := (runSink_core ver method quotas segs).1
+  have h2 := (runSink_core ver method [] [segs.flatten]).1
+  simp only [List.flatten_cons, List.flatten_nil, List.append_nil] at h2
+  have hc : (runSink ver method quotas segs).client = (runSink ver method [] [segs.flatten]).client :=
+    congrArg Core.client (h1.trans h2.symm)
+  simp only [Sink.clientView, hc]
 
 /-- ... also when the origin then closes -/
 theorem independent_after_origin_close (ver : Ver) (method : Bytes) (quotas : List Nat) (segs : List Bytes) :
     (runSink ver method quotas segs).eof.clientView = (runSink ver method [] [segs.flatten]).eof.clientView := by
-  sorry
+  have h1 := runSink_core ver method quotas segs
+  have h2 := runSink_core ver method [] [segs.flatten]
+  simp only [List.flatten_cons, List.flatten_nil, List.append_nil] at h2
+  have hc : (runSink ver method quotas segs).eof.client = (runSink ver method [] [segs.flatten]).eof.client := by
+    unfold runSink
+    rw [eof_client _ h1.2, eof_client _ h2.2, h1.1, h2.1]
+  simp only [Sink.clientView, hc]
 
 /-- bytes are delivered in stream order and never invented: what the client has after more
 segments extends what it had -/
 theorem delivery_monotone (ver : Ver) (method : Bytes) (quotas : List Nat) (segs more : List Bytes) :
     (runSink ver method quotas segs).client.body <+: (runSink ver method quotas (segs ++ more)).client.body := by
-  sorry
+  have h1 := (runSink_core ver method quotas segs).2
+  have := feed_body _ h1 more
+  simpa only [runSink, feed, List.foldl_append] using this
 
 /-! ## what is delivered, per kind of response (single segment, unthrottled: by the theorem above, every run) -/
 
@@ -68,7 +81,13 @@ theorem chunked_body_delivered_exactly (ver : Ver) (method hb : Bytes) (status :
     (runSink ver method [] [hb ++ encodeChunked chunks]).clientView =
       { interims := [], head := some (status, false, kept), body := (chunks.map (·.2)).flatten,
         firstEof := some ((chunks.map (·.2)).flatten.length), bad := false } := by
-  sorry
+  obtain ⟨he, ⟨h, hp, hs, hc⟩, hf⟩ := hh
+  subst hs
+  have h1 := (runSink_core ver method [] [hb ++ encodeChunked chunks]).1
+  simp only [List.flatten_cons, List.flatten_nil, List.append_nil] at h1
+  rw [Core.init, D_head ver method _ hb _ h kept _ he hp hc hf, phaseOf, D_chunked _ _ _ _ hne] at h1
+  have hcl : (runSink ver method [] [hb ++ encodeChunked chunks]).client = _ := congrArg Core.client h1
+  simp [Sink.clientView, hcl, cEof]
 
 /-- **a Content-Length body is delivered exactly and ended when complete** -/
 theorem content_length_body_delivered_exactly (ver : Ver) (method hb : Bytes) (status n : Nat)
@@ -77,7 +96,16 @@ theorem content_length_body_delivered_exactly (ver : Ver) (method hb : Bytes) (s
     (runSink ver method [] [hb ++ body]).clientView =
       { interims := [], head := some (status, false, kept), body := body,
         firstEof := if body.length = n then some n else none, bad := false } := by
-  sorry
+  obtain ⟨he, ⟨h, hp, hs, hc⟩, hf⟩ := hh
+  subst hs
+  have h1 := (runSink_core ver method [] [hb ++ body]).1
+  simp only [List.flatten_cons, List.flatten_nil, List.append_nil] at h1
+  rw [Core.init, D_head ver method _ hb _ h kept _ he hp hc hf, phaseOf, D_nonEncodedSome _ _ _ _ _ hn hb'] at h1
+  have hcl : (runSink ver method [] [hb ++ body]).client = _ := congrArg Core.client h1
+  have hn0 : n ≠ 0 := by omega
+  by_cases hbn : body.length = n
+  · simp [Sink.clientView, hcl, cEof, hbn, hn0]
+  · simp [Sink.clientView, hcl, hbn, hn0]
 
 /-- a close-delimited body is passed through as it comes and ended when the origin closes (this is
 also what an HTTP/1.x client gets for a chunked response: the framing is its own to remove) -/
@@ -88,21 +116,46 @@ theorem close_delimited_body_delivered_exactly (ver : Ver) (method hb : Bytes) (
       { interims := [], head := some (status, false, kept), body := body, firstEof := none, bad := false } ∧
     (runSink ver method [] [hb ++ body]).eof.clientView =
       { interims := [], head := some (status, false, kept), body := body, firstEof := some body.length, bad := false } := by
-  sorry
+  obtain ⟨he, ⟨h, hp, hs, hc⟩, hf⟩ := hh
+  subst hs
+  have h0 := runSink_core ver method [] [hb ++ body]
+  have h1 := h0.1
+  simp only [List.flatten_cons, List.flatten_nil, List.append_nil] at h1
+  rw [Core.init, D_head ver method _ hb _ h kept _ he hp hc hf, phaseOf, D_nonEncodedNone] at h1
+  have hcl : (runSink ver method [] [hb ++ body]).client = _ := congrArg Core.client h1
+  have hcl' : (runSink ver method [] [hb ++ body]).eof.client = _ := (eof_client _ h0.2).trans (by rw [h1])
+  constructor
+  · simp [Sink.clientView, hcl]
+  · simp [Sink.clientView, hcl', eofC, cEof]
 
 /-- bodiless responses (HEAD, 204, 304, Content-Length: 0) end with the head -/
 theorem bodiless_response_ends_with_head (ver : Ver) (method hb : Bytes) (status : Nat) (kept : List (Bytes × Bytes))
     (hh : FinalHead ver method hb status kept (some (.determined 0))) :
     (runSink ver method [] [hb]).clientView =
       { interims := [], head := some (status, true, kept), body := [], firstEof := none, bad := false } := by
-  sorry
+  obtain ⟨he, ⟨h, hp, hs, hc⟩, hf⟩ := hh
+  subst hs
+  have h1 := (runSink_core ver method [] [hb]).1
+  simp only [List.flatten_cons, List.flatten_nil] at h1
+  rw [Core.init, D_head ver method _ hb _ h kept _ he hp hc hf, phaseOf, D_nil] at h1
+  have hcl : (runSink ver method [] [hb]).client = _ := congrArg Core.client h1
+  simp [Sink.clientView, hcl]
 
 /-- HEAD requests and 204 / 304 responses are bodiless whatever framing headers they carry -/
 theorem head_204_304_are_bodiless (ver : Ver) (method : Bytes) (h : Head) (kept : List (Bytes × Bytes)) (bl : Option BodyLen)
     (hc : convertResponse ver method h = some (kept, bl))
     (hb : method = str "HEAD" ∨ h.status = 204 ∨ h.status = 304) :
     bl = some (.determined 0) := by
-  sorry
+  unfold convertResponse at hc
+  simp only at hc
+  split at hc
+  · simp at hc
+  · simp only [Option.some.injEq, Prod.mk.injEq] at hc
+    rw [← hc.2]
+    rcases hb with rfl | h204 | h304
+    · simp [isHead]
+    · simp [h204]
+    · simp [h304]
 
 /-- **interim 1xx responses never end or corrupt the exchange**: a 1xx head in front of the rest of
 the stream changes nothing of what follows; an HTTP/1.x client is sent it, an HTTP/2 or HTTP/3
@@ -114,7 +167,18 @@ theorem interim_response_is_transparent (ver : Ver) (method ib rest : Bytes) (h 
     let a := (runSink ver method quotas [ib ++ rest]).clientView
     let b := (runSink ver method quotas [rest]).clientView
     a = { b with interims := (if ver.isH1 then [h.status] else []) ++ b.interims } := by
-  sorry
+  intro a b
+  have h1 := (runSink_core ver method quotas [ib ++ rest]).1
+  have h2 := (runSink_core ver method quotas [rest]).1
+  simp only [List.flatten_cons, List.flatten_nil, List.append_nil] at h1 h2
+  rw [Core.init, D_interim ver method _ ib rest h hi hp hc hs] at h1
+  have hx : (⟨.waitingResponse [], if ver.isH1 then { ({} : Client) with interims := ({} : Client).interims ++ [h.status] } else {}⟩ : Core) =
+      addI (if ver.isH1 then [h.status] else []) Core.init := by
+    cases ver.isH1 <;> simp [addI, Core.init]
+  rw [hx, D_addI _ _ _ _ _ _ (Nat.le_refl _) (by simp [Core.init, CI, headEnd]), ← h2] at h1
+  have hcl : (runSink ver method quotas [ib ++ rest]).client = _ := congrArg Core.client h1
+  simp only [a, b, Sink.clientView, hcl, addI, Sink.core]
+  rfl
 
 /-! ## headers -/
 
@@ -124,13 +188,21 @@ def hopByHop : List Bytes := [str "connection", str "proxy-connection", str "kee
 theorem hop_by_hop_headers_removed (ver : Ver) (method : Bytes) (h : Head) (kept : List (Bytes × Bytes)) (bl : Option BodyLen)
     (hc : convertResponse ver method h = some (kept, bl)) :
     ∀ x ∈ kept, x.1 ∉ hopByHop ∧ (ver.isH1 = false → x.1 ≠ str "transfer-encoding") := by
-  sorry
+  have hk := convertResponse_kept ver method h kept bl hc
+  have hok := convFold_keptOk ver h.headers {} ⟨by decide, by intro x hx; simp at hx⟩
+  intro x hx
+  rw [hk] at hx
+  obtain ⟨a1, a2, a3, a4, a5⟩ := hok.2 x hx
+  exact ⟨by simp [hopByHop, a1, a2, a3, a4], a5⟩
 
 /-- nothing is invented or reordered: the forwarded headers are a sublist of the origin's -/
 theorem forwarded_headers_are_origin_headers (ver : Ver) (method : Bytes) (h : Head) (kept : List (Bytes × Bytes))
     (bl : Option BodyLen) (hc : convertResponse ver method h = some (kept, bl)) :
     kept.Sublist h.headers := by
-  sorry
+  have hk := convertResponse_kept ver method h kept bl hc
+  obtain ⟨k, hk1, hk2⟩ := convFold_kept_sublist ver h.headers {}
+  rw [hk, hk1]
+  simpa using hk2
 
 /-- **every end-to-end header is forwarded**: a header that is not hop-by-hop, not a framing header
 and not named by a Connection header of the response reaches the client -/
@@ -139,7 +211,11 @@ theorem end_to_end_headers_kept (ver : Ver) (method : Bytes) (h : Head) (kept : 
     (h1 : x.1 ∉ hopByHop) (h2 : x.1 ≠ str "transfer-encoding") (h3 : x.1 ≠ str "content-length")
     (h4 : ∀ c ∈ h.headers, c.1 = str "connection" → x.1 ∉ connectionTokens c.2) :
     x ∈ kept := by
-  sorry
+  have hk := convertResponse_kept ver method h kept bl hc
+  simp only [hopByHop, List.mem_cons, List.not_mem_nil, or_false, not_or] at h1
+  rw [hk]
+  refine convFold_keeps ver x h1.1 h2 h3 h.headers {} ?_ h4 (Or.inr hx)
+  simp [h1.2.1, h1.2.2.1, h1.2.2.2]
 
 /-! ## the request -/
 
@@ -149,7 +225,14 @@ theorem request_line_preserved (r : Request) (bytes : Bytes) (bl : BodyLen)
     (r.method ++ [32] ++ (if r.method = str "OPTIONS" then str "*" else r.target) ++ str " HTTP/" ++
       versionDigits r.ver ++ [13, 10]) <+: bytes ∧
     [13, 10, 13, 10] <:+ bytes := by
-  sorry
+  constructor
+  · obtain ⟨_, hb, _⟩ := serializeRequest_bytes r bytes bl h
+    rw [hb]
+    simp only [List.append_assoc]
+    repeat apply List.prefix_append_right_inj _ |>.mpr
+    exact List.prefix_append _ _
+  · obtain ⟨p, hp⟩ := serializeRequest_crlf r bytes bl h
+    exact ⟨p, hp.symm⟩
 
 /-- the header block: proxy hop-by-hop headers are gone, the Host header is the URI's authority
 (exactly one), every other header is there in order, unchanged -/
@@ -163,13 +246,23 @@ theorem request_headers_preserved (r : Request) (bytes : Bytes) (bl : BodyLen)
     (h : serializeRequest r = .ok bytes bl) :
     bytes = r.method ++ [32] ++ (if r.method = str "OPTIONS" then str "*" else r.target) ++ str " HTTP/" ++
       versionDigits r.ver ++ [13, 10] ++ (expectedHeaderLines r).flatten ++ [13, 10] := by
-  sorry
+  obtain ⟨hr, hb, _⟩ := serializeRequest_bytes r bytes bl h
+  obtain ⟨o1, o2⟩ := serFold_out r.authority r.headers {} hr
+  have e1 : keepReq = fun h => h.1 != str "proxy-authorization" && h.1 != str "proxy-connection" := rfl
+  have e2 : reqLine r.authority = fun h =>
+      if h.1 == str "host" then str "host: " ++ r.authority ++ [13, 10] else h.1 ++ str ": " ++ h.2 ++ [13, 10] := rfl
+  rw [hb, o1, o2, e1, e2]
+  simp only [expectedHeaderLines]
+  by_cases hany : ((r.headers.filter fun h => h.1 != str "proxy-authorization" && h.1 != str "proxy-connection").any
+      (·.1 == str "host")) = true
+  · simp [hany]
+  · simp [hany]
 
 /-- **a body announced by Content-Length is forwarded exactly up to that length** (whatever the
 chunking of the client's body stream) -/
 theorem request_body_content_length (n : Nat) (chunks : List Bytes) :
     forwardBody (.determined n) 0 chunks = chunks.flatten.take n := by
-  sorry
+  rw [forwardBody_determined]; rfl
 
 /-- a valid Content-Length (and no chunked Transfer-Encoding) fixes the forwarded body length -/
 theorem request_content_length_respected (r : Request) (bytes : Bytes) (bl : BodyLen) (v : Bytes) (k : Nat)
@@ -177,7 +270,11 @@ theorem request_content_length_respected (r : Request) (bytes : Bytes) (bl : Bod
     (hcl : (str "content-length", v) ∈ r.headers) (hk : parseDec v = some k)
     (hte : ∀ x ∈ r.headers, x.1 = str "transfer-encoding" → x.2 ≠ str "chunked") :
     bl = .determined k := by
-  sorry
+  obtain ⟨hr, _, hbl⟩ := serializeRequest_bytes r bytes bl h
+  have hb := (serFold_bodyLen r.authority r.headers {} hr hte (by simp)).2 rfl v k hcl hk
+  have hm' : isHead r.method = false := by simpa [isHead] using hm
+  rw [hbl, hm', hb]
+  rfl
 
 /-- KNOWN FINDING (recorded in known_findings.json, replayed on the implementation by the suite):
 an HTTP/2 or HTTP/3 request without Content-Length is forwarded with its body raw and *no*
